@@ -116,6 +116,9 @@ func shapeFamilies() []shapeFamily {
 		"escaped-quotes-and-escapes":           func(n int) string { return `"` + rep("\\"+`"`+"\\"+`n`+U("00e9"), n) + `"` },
 		"plain-then-late-escapes":              func(n int) string { return `"` + rep("x", n*4) + rep(U("d83d")+U("de00"), n) + `"` },
 		"deep-arrays":                          func(n int) string { return rep("[", n) + rep("]", n) },
+		"deep-then-error-arrays":               func(n int) string { return rep("[0,", n) + "!" },
+		"deep-then-error-objects":              func(n int) string { return rep(`{"k":`, n) + "!" },
+		"deep-then-eof-mixed":                  func(n int) string { return rep(`[{"k":`, n/2) },
 		"long-string-then-deep-nesting":        func(n int) string { return `["` + rep("x", n*8) + `",` + rep("[", n) + rep("]", n) + "]" },
 		"long-escaped-key-then-deep-nesting": func(n int) string {
 			return `{"` + "\\" + `t` + rep("k", n*8) + `":` + rep(`{"a":`, n) + "1" + rep("}", n) + "}"
@@ -145,7 +148,7 @@ func shapeFamilies() []shapeFamily {
 			one("UnescapeStringContent/"+k, d, func(b []byte) { rjson.UnescapeStringContent(b[1:len(b)-1], nil) }),
 		)
 	}
-	for _, k := range []string{"deep-arrays", "deep-objects", "deep-with-siblings", "wide-numbers", "escapes-at-every-level", "big-object-then-small-objects", "long-escaped-string"} {
+	for _, k := range []string{"deep-arrays", "deep-objects", "deep-with-siblings", "wide-numbers", "escapes-at-every-level", "big-object-then-small-objects", "long-escaped-string", "deep-then-error-arrays", "deep-then-error-objects", "deep-then-eof-mixed"} {
 		d := docs[k]
 		fams = append(fams,
 			one("Valid/"+k, d, func(b []byte) { rjson.Valid(b, nil) }),
